@@ -289,13 +289,22 @@ impl<H, T> HeaderSliceWithLengthProtected<H, T> {
 
 impl<H: PartialOrd, T: ?Sized + PartialOrd> PartialOrd for HeaderSlice<HeaderWithLength<H>, T> {
     fn partial_cmp(&self, other: &Self) -> Option<Ordering> {
-        (&self.header.header, &self.slice).partial_cmp(&(&other.header.header, &other.slice))
+        // the recorded length comes last: it is part of `==` (derived), so it must break ties here too
+        (&self.header.header, &self.slice, &self.header.length).partial_cmp(&(
+            &other.header.header,
+            &other.slice,
+            &other.header.length,
+        ))
     }
 }
 
 impl<H: Ord, T: ?Sized + Ord> Ord for HeaderSlice<HeaderWithLength<H>, T> {
     fn cmp(&self, other: &Self) -> Ordering {
-        (&self.header.header, &self.slice).cmp(&(&other.header.header, &other.slice))
+        (&self.header.header, &self.slice, &self.header.length).cmp(&(
+            &other.header.header,
+            &other.slice,
+            &other.header.length,
+        ))
     }
 }
 
